@@ -1,12 +1,15 @@
 package memdb
 
 import (
+	"bytes"
 	"context"
 	"database/sql"
 	"database/sql/driver"
 	"fmt"
 	"io"
 	"reflect"
+	"runtime"
+	"strconv"
 	"sync"
 	"time"
 
@@ -94,7 +97,22 @@ func (s *Server) fault(op Op) error {
 	if s.Fault == nil {
 		return nil
 	}
+	if s.WantGID {
+		op.GID = GoroutineID()
+	}
 	return s.Fault(op)
+}
+
+// GoroutineID is the id of the calling goroutine.
+func GoroutineID() int64 {
+	var buf [64]byte
+	b := buf[:runtime.Stack(buf[:], false)]
+	b = bytes.TrimPrefix(b, []byte("goroutine "))
+	if i := bytes.IndexByte(b, ' '); i > 0 {
+		id, _ := strconv.ParseInt(string(b[:i]), 10, 64)
+		return id
+	}
+	return 0
 }
 
 type conn struct {
